@@ -238,6 +238,10 @@ func vxTraceMark(s string) {
 	panic("vxTraceMark: environment-model function, not available in native replay")
 }
 
+func vxBarrier(k int) {
+	panic("vxBarrier: environment-model function, not available in native replay")
+}
+
 func vxFieldChan(obj interface{}, idx int) interface{} {
 	panic("vxFieldChan: environment-model function, not available in native replay")
 }
